@@ -105,7 +105,8 @@ def rnd (f : Fmt) (x : Q) : Option Q :=
     | none => none
     | some (m, e) => some (ofME (x.num < 0) m e)
 
-/-- the IEEE bit pattern (sign, biased exponent, fraction) of the nearest value of the format -/
+/-- the IEEE bit pattern (sign, biased exponent, fraction) of the nearest value of the format; a value that rounds to
+zero has pattern `0` whatever its sign (`-0` is not represented) -/
 def bits (f : Fmt) (x : Q) : Option Nat :=
   if x.num == 0 then some 0
   else
@@ -113,7 +114,8 @@ def bits (f : Fmt) (x : Q) : Option Nat :=
     | none => none
     | some (m, e) =>
       let sign := if x.num < 0 then 2 ^ (f.ebits + f.p - 1) else 0
-      if m < 2 ^ (f.p - 1) then some (sign + m)
+      if m == 0 then some 0
+      else if m < 2 ^ (f.p - 1) then some (sign + m)
       else
         let field : Int := e + ((f.p : Int) - 1) + (2 ^ (f.ebits - 1) - 1 : Nat)
         some (sign + field.toNat * 2 ^ (f.p - 1) + (m - 2 ^ (f.p - 1)))
